@@ -13,18 +13,18 @@ import (
 
 // env is the state of one execution of a scenario's program.
 type env struct {
-	sc       *Scenario
-	p        *mpb.Progress
-	bars     []*mpb.Bar
-	cancel   context.CancelFunc
-	manualRC chan interface{}
-	delayCh  chan struct{}
-	notifier chan interface{}
-	stopCh   chan struct{}
-	uwg      *sync.WaitGroup
-	cwg      sync.WaitGroup
-	cdone    []chan struct{}
-	f        *faults
+	sc          *Scenario
+	p           *mpb.Progress
+	bars        []*mpb.Bar
+	cancel      context.CancelFunc
+	manualRC    chan interface{}
+	delayCh     chan struct{}
+	notifier    chan interface{}
+	stopCh      chan struct{}
+	uwg         *sync.WaitGroup
+	cwg         sync.WaitGroup
+	cdone       []chan struct{}
+	f           *faults
 	delayClosed bool
 	initial     map[int]bool
 	joined      bool
